@@ -278,16 +278,40 @@ def check(rep):
         d = layers.stoch_diff(mo, io)
         if d:
             rep.fail("correspondence", f"stochastic-object layer on {t!r}: " + "; ".join(d[:3]), {"layer": "stochastic", "text": t}, expected=str(mo)[:300], observed=str(io)[:300])
+    # tie K on whole molecules: valid instances and byte-level mutations of them (error class vs elements / mixture / generability)
+    mols_k = []
+    for text in base[:120]:
+        mols_k.append(text)
+        for _ in range(4):
+            k = rnd.randrange(len(text))
+            mols_k.append(text[:k] + rnd.choice("{}[];,|$<>. 1%") + text[k:])
+            mols_k.append(text[:k] + text[k + 1:])
+    mols_k += ["", "CC", "CC.|5|", "CC.|5%|", "CC.|500%|", "CC.|x|", "CC.|5|C", "CC.|", ".|5|", "{", "C{", "C{[$]", "C{[$][$]C[$][$]}|gauss(1,2)", "C{[$][$]C[$][$]}C{[$][$]C[$][$]}C",
+               "C[$]{[$][$]C[$][$]}[<]C", "CC.|-5|", "CC.|nan%|", "C.|1e400|"]
+    mols_k = list(dict.fromkeys(mols_k))[: (900 if quick else 25000)]
+    mol_hist = {}
+    for t, o in zip(mols_k, fw.run_driver([layers.mol_line(t) for t in mols_k])):
+        evaluations += 1
+        mo, io = layers.parse_model_mol(o), layers.impl_mol(t)
+        k = "accepted" if isinstance(io, dict) else io[0] + ":" + io[1]
+        mol_hist[k] = mol_hist.get(k, 0) + 1
+        if isinstance(io, tuple) and io[0] == "TIMEOUT":
+            rep.fail("oracle", f"Molecule({t!r}) does not terminate within 10 s", {"text": t, "operator": "byte_mutation", "system": False}, expected="termination", observed="timeout")
+            continue
+        d = layers.mol_diff(mo, io)
+        if d:
+            rep.fail("correspondence", f"molecule layer on {t!r}: " + "; ".join(d[:3]), {"layer": "molecule", "text": t}, expected=str(mo)[:300], observed=str(io)[:300])
     rep.coverage.update({"evaluations": evaluations, "distinct_nontrivial": len(distinct), "valid_instances": len(base), "operators": [o.__name__ for o in OPS],
+                         "molecule_texts_vs_model": len(mols_k), "molecule_outcomes": dict(sorted(mol_hist.items())),
                          "object_texts_vs_model": len(objs), "object_outcomes": dict(sorted(obj_hist.items())),
                          "operator_outcomes": dict(sorted(ophist.items())), "byte_mutations": muts, "token_texts_vs_model": len(toks),
                          "rule": "every valid instance (documented + structured generator) x 12 breaking operators (one rule violated at a random position) + terminal-list and "
                                  "system-level probes + byte-level mutations (insert / delete / replace / duplicate) under a 2 s limit; distinct_nontrivial = distinct (operator, broken text)",
                          "samples": [{"text": op_paren(random.Random(1), base[0])[0], "operator": "op_paren"}, {"text": "CC.|50", "operator": "system_unclosed_specifier"}]})
-    rep.assumptions = ["PARTIAL: termination is a theorem for the descriptor parser, the token parser, the stochastic-object parser and the system splitting loop; for the molecule "
-                       "constructor it is checked by byte-level mutations under a time limit",
+    rep.assumptions = ["termination is a theorem for the descriptor parser, the token parser, the stochastic-object parser, the molecule parser and the system splitting loop (models tied by "
+                       "correspondence); on the implementation it is additionally checked by byte-level mutations under a time limit",
                        "an exception raised inside a distribution constructor while parsing its parameters (ast.literal_eval, float) is outside the model: such texts are not compared"]
-    return fw.finish(rep, coq, fw.COMMON_TRUSTED + ["modelled, not verified: bond.py:26-118, token.py:37-199, stochastic.py:24-141, system.py:105-126 (splitting loop)"],
+    return fw.finish(rep, coq, fw.COMMON_TRUSTED + ["modelled, not verified: bond.py:26-118, token.py:37-199, stochastic.py:24-141, mixture.py:25-52, molecule.py:22-152, system.py:105-126 (splitting loop)"],
                      "make -C coq Props/C15.vo (coqc 8.16.1, full .vo build) + Print Assumptions audit")
 
 
